@@ -79,6 +79,7 @@ struct Parent {
     stack_mib: u64,
     hang_cpu_s: f64,
     wall_case_s: f64,
+    probe_budget_ms: u64,
     base: String,
     report: Report,
     cand: BTreeMap<String, Vec<Witness>>,
@@ -90,6 +91,8 @@ struct Parent {
     muted: bool,
     /// symbolised call stacks learnt by the children so far (JSON lines, handed to the next child)
     btcache: Vec<String>,
+    /// wall time spent in probe children that minimise aborting inputs (bounded per shard)
+    probe_time: Duration,
 }
 
 impl Parent {
@@ -455,7 +458,9 @@ impl Parent {
         let _ = std::fs::remove_file(self.path("ann"));
         // probing must not distort counts
         self.muted = true;
+        let t = Instant::now();
         let end = self.run_child(&["--replay-one".to_string(), self.path("replay1")], false);
+        self.probe_time += t.elapsed();
         self.muted = false;
         self.report.stat("shrink_probe_children", 1);
         if end.done_next.is_some() && end.signal.is_none() && end.killed.is_none() {
@@ -518,10 +523,20 @@ impl Parent {
                         .set("outcome", format!("viol:{}", sig))
                 });
                 // minimise aborts (not hangs: each probe would burn the CPU limit) once per signature
-                if !sig.starts_with("hang|") && self.abort_minimized.insert(sig.clone()) && Instant::now() < self.deadline {
+                let probe_budget = Duration::from_millis(self.probe_budget_ms);
+                if !sig.starts_with("hang|")
+                    && self.probe_time < probe_budget
+                    && self.abort_minimized.insert(sig.clone())
+                    && Instant::now() < self.deadline
+                {
                     let (mut lo, mut hi) = (0usize, a.input.len());
                     let mut probes = 0;
-                    while lo < hi && probes < 18 && Instant::now() < self.deadline {
+                    let t_sig = Instant::now();
+                    while lo < hi
+                        && probes < 18
+                        && Instant::now() < self.deadline
+                        && t_sig.elapsed() < Duration::from_millis(self.probe_budget_ms / 3)
+                    {
                         let mid = (lo + hi) / 2;
                         probes += 1;
                         let r = self.replay_obj(dec, a, &a.input[..mid], &a.class);
@@ -638,6 +653,7 @@ pub fn main(args: &vcore::Args) -> i32 {
         stack_mib: args.u64("stack-mib", 8),
         hang_cpu_s: args.u64("hang-cpu-s", 5) as f64,
         wall_case_s: args.u64("wall-case-s", 60) as f64,
+        probe_budget_ms: args.u64("probe-budget-ms", if tier == "thorough" { 30_000 } else { 6_000 }),
         base,
         report: Report::new("C07"),
         cand: BTreeMap::new(),
@@ -647,6 +663,7 @@ pub fn main(args: &vcore::Args) -> i32 {
         abort_minimized: HashSet::new(),
         muted: false,
         btcache: Vec::new(),
+        probe_time: Duration::ZERO,
     };
     p.report.max_samples = 4;
 
